@@ -384,6 +384,37 @@ def r_path(A, ctx, scope, rule="R-PATH"):
                     "its initial (zero) column - intercept and unpenalised coefficients included - "
                     "instead of the solution for its alpha",
                loc=loc(f, bypass[0]) if bypass else None)
+        # (0b) the grid handed back is the grid that was swept: the array the strength is read
+        # from at index t is the first element of what path() returns (results at position t
+        # belong to that alpha)
+        grid_name = None
+        for nd in cfg.stmts():
+            a = nd.ast
+            if nd.kind == "stmt" and isinstance(a, ast.Assign) and isinstance(a.targets[0], ast.Attribute) \
+                    and a.targets[0].attr == "alpha" and isinstance(a.value, ast.Subscript) \
+                    and isinstance(a.value.value, ast.Name):
+                grid_name = a.value.value.id
+        if grid_name is None:
+            for st in ast.walk(lp):
+                if isinstance(st, ast.Assign) and isinstance(st.value, ast.Subscript) \
+                        and isinstance(st.value.value, ast.Name) and isinstance(st.value.slice, ast.Name) \
+                        and isinstance(lp.target, ast.Name) and st.value.slice.id == lp.target.id \
+                        and isinstance(st.targets[0], ast.Name) and "alpha" in st.targets[0].id:
+                    grid_name = st.value.value.id
+        rets = [r for r in ast.walk(f.node) if isinstance(r, ast.Return) and r.value is not None]
+        if grid_name and rets:
+            n += 1
+            bad = []
+            for r in rets:
+                first = r.value.elts[0] if isinstance(r.value, ast.Tuple) and r.value.elts else r.value
+                if isinstance(first, ast.Name) and first.id != grid_name and first.id in names_in(f.node) \
+                        and "alpha" in first.id.lower():
+                    bad.append((first.id, r))
+            ctx.ob(rule, f"{f.fq}::returned-grid", not bad,
+                   what=(f"path() sweeps `{grid_name}` but returns `{bad[0][0]}`: when the two are ordered "
+                         "differently (a grid that is not sorted the way the sweep goes) result number t does "
+                         "not belong to the alpha returned at position t") if bad else "",
+                   loc=loc(f, bad[0][1]) if bad else None)
         # (1) alpha set before solve
         n += 1
         ok = False
